@@ -234,7 +234,7 @@ def main(ck):
         if k == "replay":
             return bool(c.get("clears")) or c["commit"] > c["appliedAt"]
         if k == "ack":
-            return any(o["op"] == "c" for o in c["ops"]) and any(o["op"] == "w" for o in c["ops"])
+            return any(o["op"] == "c" for o in (c.get("ops") or [])) and any(o["op"] == "w" for o in (c.get("ops") or []))
         return True
     distinct = set()
     for c in cases:
